@@ -319,9 +319,14 @@ class Frame(Formattable):
         if clsname is not None:
             function = f"{clsname}.{function}"
 
+        # (names are free text as well: a module or file name may have a
+        # line break in it)
         lines = [
-            f"{function} in {self.modname or 'unknown module'} "
-            f"at {self.filename}:{self.lineno}\n"
+            _one_line(
+                f"{function} in {self.modname or 'unknown module'} "
+                f"at {self.filename}:{self.lineno}"
+            )
+            + "\n"
         ]
         if opts.show_contexts:
             for context in self.contexts:
@@ -530,7 +535,7 @@ class Context(Formattable):
         if show_lineno and self.start_line is not None:
             comment_parts.append(f"(line {self.start_line})")
         if comment_parts:
-            linetext += "  # " + " ".join(comment_parts)
+            linetext += "  # " + _one_line(" ".join(comment_parts))
 
         lines = [linetext + "\n"]
         if self.inner_stack is not None:
